@@ -126,6 +126,13 @@ claim("C02",
       "Partial: the round trip itself is observed, not proved (Go values and encoding/json's decoder are not modelled); the Coq part fixes the wire format and validates it against the real encoder. Trusted: the reflection driver (harness/testbin/driver.go.txt) incl. its reference encoder.",
       "real round trips in a compiled test binary + reference encoder; Coq shape conformance of every real document", "DESIGN.md §5 C02")
 
+claim("C15",
+      "Coq theorems on the call structure of the generated functions (a function calls the functions of its components unconditionally): a well-founded structure gives termination for every random stream; a type that reaches itself never returns (the open finding, as a theorem). "
+      "Tied to /repo by compiling the real generated functions with the source package and calling them under several seeds, one process per type with a time limit: the model's termination prediction per type must equal what happened. "
+      "Well-formedness (enum components among the exported constants, non-nil member unions, populated containers, skipped fields zero), variation and the JSON round trip are checked by reflection on every returned value.",
+      "Partial: well-formedness and variation are observed on the real functions, not proved; the proof covers termination (model of the call structure, read from the templates). Trusted: the reflection driver.",
+      "Coq proof (termination iff acyclic call structure) + per-type termination correspondence + reflection oracle on real values", "DESIGN.md §5 C15")
+
 NOT_YET = "check not built yet in this round (planned, see DESIGN.md §6)"
 
 checks, na = [], []
